@@ -60,6 +60,12 @@ theorem uniq_append_singleton (v : α) (xs : List α) (h : v ∉ xs) : uniq (xs 
     have hxs : v ∉ xs := fun e => h (by simp [e])
     simp [uniq, ih hxs, List.filter_append, hx]
 
+/-- the repaired append rule on a whole list: the value ends up last, the others keep the order of their first
+occurrences -/
+theorem uniq_appendL (v : α) (l : List α) : uniq (appendL v l) = (uniq l).filter (· != v) ++ [v] := by
+  unfold appendL
+  rw [uniq_append_singleton v _ (by simp), filter_uniq]
+
 end
 
 /-! ## string layer -/
